@@ -120,6 +120,12 @@ Z = [
     # a CTE defined with a quoted upper-case name and referred to without quotes (and the other way round); qualified tables only
     ("q_cte_quoted_def", ["with {q:BIG} as (select id from db1.s1.people) select count(*) as n from {i:big}"], "o"),
     ("q_cte_quoted_ref", ["with {i:big} as (select id from db1.s1.people) select count(*) as n from {q:BIG} b join db1.s1.orders o on o.id = b.id"], "o"),
+    # two statements of one shape whose quoted names differ in case only
+    ("q_quoted_case_pair_a", ["select 1 as {q:Id}, 2 as {q:lower}", "select 1 as {q:ID}, 2 as {q:LOWER}"], "o"),
+    ("q_quoted_case_pair_b", ["select 1 as {q:ID}, 2 as {q:LOWER}", "select 1 as {q:Id}, 2 as {q:lower}"], "o"),
+    ("ddl_case_variant_recreate", ["create table {q:orders_lc} ({q:Name} varchar(7), n int)", "drop table {q:orders_lc}", "create table {i:orders_lc} ({i:name} varchar(3))",
+                                   "select column_name, character_maximum_length from information_schema.columns where table_name = {l:'ORDERS_LC'} order by 1"], "mo"),
+    ("ddl_quoted_case_pair", ["create table {q:Metrics} (id int)", "drop table {q:Metrics}", "create table {q:METRICS} (id int)"], "m"),
     # quoted names that are upper case but still need their quotes (space, dot, dash, parenthesis)
     ("q_quoted_upper_special", ["select id as {q:ORDER ID}, name as {q:A.B}, age as {q:UNIT-PRICE}, 1 as {q:COUNT(*)} from people order by 1"], "o"),
     ("q_alias_mix", ["select {i:id} as {q:MyId}, {i:name} as {i:alias1} from {i:people} order by 1"], "o"),
